@@ -523,8 +523,35 @@ func genC03Step(t *rapid.T, r *c03Run) bson.D {
 		}
 		return st
 	}
-	inner := func() bson.D { return innerOf(profTxn) }
-	innerIn := func() bson.D { return noGeneratedIDs(innerOf(profTxnIn)) }
+	// find-and-modify calls whose projection is rejected after the write was
+	// made (they must undo it), with and without an upsert
+	rejected := func() bson.D {
+		op := rapid.SampledFrom([]string{"findOneAndUpdate", "findOneAndUpdate", "findOneAndReplace", "findOneAndDelete"}).Draw(t, "rjop")
+		st := bson.D{{Key: "op", Value: op}, {Key: "ns", Value: rapid.SampledFrom([]string{"d1.c1", "d1.c2"}).Draw(t, "rjns")},
+			{Key: "filter", Value: bson.D{{Key: "_id", Value: rapid.SampledFrom(simpleIDs).Draw(t, "rjid")}}}}
+		switch op {
+		case "findOneAndUpdate":
+			st = append(st, bson.E{Key: "update", Value: bson.D{{Key: "$set", Value: bson.D{{Key: "a", Value: rapid.SampledFrom(collideVals).Draw(t, "rjv")}}}}})
+		case "findOneAndReplace":
+			st = append(st, bson.E{Key: "repl", Value: bson.D{{Key: "a", Value: rapid.SampledFrom(collideVals).Draw(t, "rjv")}}})
+		}
+		if op != "findOneAndDelete" {
+			st = append(st, bson.E{Key: "upsert", Value: rapid.Bool().Draw(t, "rjups")}, bson.E{Key: "after", Value: rapid.Bool().Draw(t, "rjafter")})
+		}
+		return append(st, bson.E{Key: "proj", Value: rapid.SampledFrom([]bson.D{{{Key: "a", Value: int32(1)}, {Key: "b", Value: int32(0)}}, {{Key: "b", Value: int32(0)}, {Key: "a", Value: true}}, {{Key: "a", Value: "x"}}}).Draw(t, "rjproj")})
+	}
+	inner := func() bson.D {
+		if rapid.IntRange(0, 999).Draw(t, "rj")%25 == 7 {
+			return rejected()
+		}
+		return innerOf(profTxn)
+	}
+	innerIn := func() bson.D {
+		if rapid.IntRange(0, 999).Draw(t, "rji")%20 == 7 {
+			return rejected()
+		}
+		return noGeneratedIDs(innerOf(profTxnIn))
+	}
 	k := rapid.IntRange(0, 1).Draw(t, "sess")
 	choice := rapid.IntRange(0, 99).Draw(t, "kind")
 	if r.open >= 0 {
